@@ -42,6 +42,7 @@ struct Snap {
     other: Option<(AnimationState, Duration, f32)>,
     bystander: Target,
     bystander_v: f32,
+    extra: Option<(AnimationState, Duration, Target)>,
 }
 
 fn snap(w: &SimWorld) -> Snap {
@@ -66,6 +67,11 @@ fn snap(w: &SimWorld) -> Snap {
         other,
         bystander: b.get::<Target>().unwrap().clone(),
         bystander_v: b.get::<Bystander>().unwrap().v,
+        extra: w.extra.map(|x| {
+            let e = w.app.world.entity(x);
+            let an = e.get::<Animator<Target>>().unwrap();
+            (an.state(), an.timeline_position, e.get::<Target>().unwrap().clone())
+        }),
     }
 }
 
@@ -86,6 +92,14 @@ fn hash_snap(h: &mut ObsHash, s: &Snap) {
         h.u32(rank(st) as u32);
         h.u64(p.as_nanos() as u64);
         h.f32(x);
+    }
+    if let Some((st, p, c)) = &s.extra {
+        h.u32(rank(*st) as u32 + 50);
+        h.u64(p.as_nanos() as u64);
+        h.f32(c.a);
+        h.f32(c.b);
+        h.u32(c.n as u32);
+        h.u32(c.k as u32);
     }
 }
 
@@ -226,6 +240,7 @@ fn execute(scn: &BScn, property: &str) -> RunOutcome {
             )
         })
     };
+    let extra_twin: Option<Twin> = cfg.extra_entity.map(|(tl, _)| Twin::new(cfg, tl, None));
     let mut pending: Option<Pending> = None;
     let mut user_changed_since_end = false;
     let mut unacted_frames = 0usize;
@@ -544,6 +559,31 @@ fn execute(scn: &BScn, property: &str) -> RunOutcome {
                 }
             }
             // (i) events
+            // the extra plain entity: its own events and the clauses that do not need operations
+            if let (Some(x), Some((sb, pb, cb)), Some((sa, pa, ca)), Some(tw)) = (w.extra, &before.extra, &after.extra, &extra_twin) {
+                let theirs: Vec<AnimationState> = events.iter().filter(|(e, _)| *e == x).map(|(_, s)| *s).collect();
+                let exp: Vec<AnimationState> = if sa != sb { vec![*sa] } else { vec![] };
+                if theirs != exp {
+                    fail!("C18", "events-do-not-match-state-changes", "frame {fi}: second entity went {sb:?} -> {sa:?}; events sent for it: {theirs:?}, expected {exp:?}");
+                }
+                let m = &cfg.tls[tw.tl_index];
+                if *sa != AnimationState::Ended && *pa != *pb + delta {
+                    fail!("C18", "position-not-conserved", "frame {fi}: second entity: {pb:?} + {delta:?} != {pa:?} in state {sa:?}");
+                }
+                if *sa == AnimationState::Playing {
+                    let c1 = tw.eval(cb, *pb);
+                    let c2 = tw.eval(cb, *pa);
+                    if !keyed_equal(m, ca, &c1) && !keyed_equal(m, ca, &c2) {
+                        fail!("C18", "playing-component-stale", "frame {fi}: second entity Playing at {pa:?} but its component is {}; timeline gives {} / {}", tbrief(ca), tbrief(&c1), tbrief(&c2));
+                    }
+                }
+                if *sa == AnimationState::Ended && *sb != AnimationState::Ended {
+                    out.count("probe.second_entity_ended");
+                    if after.state == AnimationState::Ended && state_base != AnimationState::Ended {
+                        out.count("probe.both_entities_ended_in_same_frame");
+                    }
+                }
+            }
             let mine: Vec<AnimationState> = events.iter().filter(|(e, _)| *e == w.entity).map(|(_, s)| *s).collect();
             let mut expected: Vec<AnimationState> = Vec::new();
             if target_changed {
@@ -561,7 +601,7 @@ fn execute(scn: &BScn, property: &str) -> RunOutcome {
             if got_sorted != exp_sorted {
                 fail!("C18", "events-do-not-match-state-changes", "frame {fi}: state {state_base:?} -> {:?} (second animator {:?} -> {:?}); events sent: {mine:?}, expected {expected:?}", after.state, before.other.map(|o| o.0), after.other.map(|o| o.0));
             }
-            if events.iter().any(|(e, _)| *e != w.entity) {
+            if events.iter().any(|(e, _)| *e != w.entity && Some(*e) != w.extra) {
                 fail!("C18", "event-for-wrong-entity", "frame {fi}: an event names an entity without an animator");
             }
             if target_changed && after.state == AnimationState::Ended {
@@ -666,6 +706,11 @@ fn execute(scn: &BScn, property: &str) -> RunOutcome {
             if let (Some((sb, _, _)), Some((sa, _, _))) = (before.other, after.other) {
                 if sb != AnimationState::Ended && sa == AnimationState::Ended {
                     out.count("probe.other_animator_ended");
+                }
+            }
+            if let (Some((sb, _, _)), Some((sa, _, _))) = (&before.extra, &after.extra) {
+                if *sb != AnimationState::Ended && *sa == AnimationState::Ended && target_ended_now {
+                    out.count("probe.plain_entity_ended_in_same_frame_as_chained_entity");
                 }
             }
             // 1./2./4. the component follows the acted key's timeline from the values it had at
